@@ -55,6 +55,29 @@ def r18a(run):
     run.check("R18a", f, "depth increases by one exactly when no route is given", ok, construct="depth increment",
               message="self.depth is not incremented by exactly 1 on (only) the no-route branch",
               necessity="element / field contexts must not add depth; data-class contexts must add exactly one")
+    writes = [n for n in fa.cfg.nodes if n.kind == "stmt" and isinstance(n.ast, (ast.Assign, ast.AugAssign, ast.AnnAssign))
+              and any(unparse(t) == "self.depth" for t in (n.ast.targets if isinstance(n.ast, ast.Assign) else [n.ast.target]))]
+    for n in writes:
+        if n in incs:
+            continue
+        v = n.ast.value
+        inherit_form = isinstance(n.ast, ast.Assign) and isinstance(v, ast.IfExp) and unparse(v.body) == "context.depth" \
+            and unparse(v.test) == "context" and isinstance(v.orelse, ast.Constant) and v.orelse.value == 0 \
+            and not fa.facts.branch_facts(n)
+        run.check("R18a", f, f"`{norm_stmt(n.ast)[:50]}` is the inherited starting depth", inherit_form,
+                  construct=f"depth overwritten: {norm_stmt(n.ast)[:50]}",
+                  message=f"`{norm_stmt(n.ast)}` sets the depth to something else than the parent's depth "
+                          f"(under {[unparse(b.test) + '=' + str(b.polarity) for b in fa.facts.branch_facts(n)]})",
+                  necessity="a counter that restarts (e.g. when the nested class differs from the parent's) never reaches "
+                            "the limit for mutually recursive classes: every depth is accepted and cyclic inputs recurse "
+                            "until the interpreter's limit", node=n.ast)
+    # the limit violation is raised, never handed to handle_error (which may return in collect mode)
+    he = [c for n_, c in fa.all_calls() if call_attr(c) == "handle_error"]
+    run.check("R18a", f, "the depth error is raised unconditionally (not collected)", not he,
+              construct="depth error handed to handle_error",
+              message="RuntimeContext.__init__ reports the depth violation through handle_error: with collect_errors=True "
+                      "it is only recorded and parsing continues below the limit",
+              necessity="too-deep and cyclic inputs are converted in full (until RecursionError) under collect_errors")
     cmp_ok = False
     for n in fa.cfg.nodes:
         if n.kind == "test" and "max_depth" in unparse(n.ast):
@@ -239,8 +262,66 @@ def r18d(run):
               necessity="the strict flags of an outer stage would be lost in nested contexts")
 
 
+def r18e(run):
+    """the strictness a union stage asked for must survive the data-class boundary, otherwise every nested data class
+    restarts the staged retries (3 attempts per level: 3^depth conversions for one invalid leaf)"""
+    f = run.repo.func("utype.parser.options", "Options.make_context")
+    fa = analysis(f)
+    ctor = [(n, c) for n, c in fa.all_calls() if call_attr(c) == "RuntimeContext"]
+    run.floor("R18e", "context constructions in Options.make_context", len(ctor), 1)
+    for n, c in ctor:
+        o = kwarg(c, "options")
+        srcs = prov(fa).of_expr(n, o) if o is not None else []
+        texts = {x.text for x in srcs}
+        # some definition of the child's options must combine the parent's options when the class does not override
+        merged = False
+        for d in fa.cfg.nodes:
+            if d.kind == "stmt" and isinstance(d.ast, (ast.Assign, ast.AugAssign)) and d.ast.value is not None:
+                tv = unparse(d.ast.value)
+                tgt = unparse(d.ast.targets[0] if isinstance(d.ast, ast.Assign) else d.ast.target)
+                if isinstance(o, ast.Name) and tgt == o.id and "context.options" in tv and (
+                        "&" in tv or "no_data_loss" in tv or "no_explicit_cast" in tv or "__and__" in tv):
+                    merged = True
+        run.check("R18e", f, "a nested data-class context keeps the conversion flags of the context it is created from",
+                  merged, construct="stage flags dropped at the data-class boundary",
+                  message=f"Options.make_context builds the child's options from {sorted(texts)} only: the parent's "
+                          f"no_data_loss / no_explicit_cast (set by a union retry stage) are not carried into a nested "
+                          f"data class unless the parent overrides",
+                  necessity="inside a nested data class every union starts its staged retries again: for "
+                            "class Node: v: Leaf; child: Optional['Node'] one invalid leaf at depth d costs (3^d - 1)/2 "
+                            "leaf conversions (d=10: 29524) - exponential in the nesting depth", node=c)
+
+
+def r18f(run):
+    """retry multiplicity: only the union branch retries, and only through its guarded stages - no branch re-enters the
+    whole combinator on the same value, and no other branch enters child contexts with conversion options"""
+    f = run.repo.func("utype.parser.rule", "LogicalType.logical_parse")
+    fa = analysis(f)
+    val = f.params[1]
+    self_calls = [(n, c) for n, c in fa.all_calls() if call_attr(c) in ("logical_parse", "__call__") and
+                  isinstance(c.func, ast.Attribute) and unparse(c.func.value) in ("cls", "self")]
+    for n, c in self_calls:
+        same = c.args and unparse(c.args[0]) == val and fa.rd.is_param_only(n, val)
+        run.check("R18f", f, f"`{unparse(c)[:50]}` does not re-parse the same value with the whole combinator", not same,
+                  construct=f"logical_parse re-enters itself on the same value ({branch_of(fa, n)} branch)",
+                  message=f"the `{branch_of(fa, n)}` branch calls `{unparse(c)[:70]}` on the unchanged input before (or "
+                          f"besides) its own pass",
+                  necessity="every nesting level of such a type parses its input twice: an invalid leaf under d levels "
+                            "costs 2^d - 1 conversions instead of d", node=c)
+    staged = [(n, c) for n, c in fa.all_calls() if call_attr(c) == "enter" and kwarg(c, "options") is not None]
+    for n, c in staged:
+        b = branch_of(fa, n)
+        run.check("R18f", f, f"staged child contexts exist only in the union branch (`{b}`)", b == "|",
+                  construct=f"staged retry outside the union branch ({b})",
+                  message=f"the `{b}` branch enters a child context with explicit conversion options: "
+                          f"`{unparse(c)[:70]}`", necessity="an extra full pass per nesting level multiplies the work",
+                  node=c)
+    run.ob("R18f", f, "no branch re-enters the combinator on its own input", True,
+           detail=f"{len(self_calls)} self call(s), {len(staged)} staged child contexts", nontrivial=False)
+
+
 def check(run):
-    run.rules_run += ["R18a", "R18b", "R18c", "R18d"]
+    run.rules_run += ["R18a", "R18b", "R18c", "R18d", "R18e", "R18f"]
     run.explain("C18: (R18a) the route parameter of RuntimeContext is tested None-exactly, depth is inherited, "
                 "incremented by one on the no-route branch only and compared with `>`; (R18b) every context.enter site "
                 "passes a non-None route and enter() chains context/route/options; (R18c) data-class contexts are "
@@ -252,3 +333,5 @@ def check(run):
     r18b(run)
     r18c(run)
     r18d(run)
+    r18e(run)
+    r18f(run)
